@@ -550,15 +550,12 @@ Section StmtWithRec.
     cond <- pexpr ;;
     let first := mkCB (traw it) (new_range (trange it) (trange it)) (Some cond) [] in
     '(cur, done, endt) <- (fun i c => if_loop (S (S (length i))) it first [] i c) ;;
-    (* `done` holds the finished blocks in order, `cur` the block being filled when the loop ended *)
-    let blocks := done ++ [cur] in
-    match blocks with
-    | ifb :: elses =>
-        let r0 := new_range (trange it) (nrange cond) in
-        let r := match endt with Some t => new_range r0 (trange t) | None => r0 end in
-        ret (Node KAstIfBlock S_if (traw it) r [(K_end, opt_toks endt)] (map cb_node (ifb :: elses)))
-    | [] => fun i c => (Panic 3, c)
-    end.
+    (* `done` holds the finished blocks in order, `cur` the block being filled when the loop ended;
+       the first of them is the if block, the others are the elseif / else blocks *)
+    let blocks := match done with [] => (cur, []) | d :: ds => (d, ds ++ [cur]) end in
+    let r0 := new_range (trange it) (nrange cond) in
+    let r := match endt with Some t => new_range r0 (trange t) | None => r0 end in
+    ret (Node KAstIfBlock S_if (traw it) r [(K_end, opt_toks endt)] (map cb_node (fst blocks :: snd blocks))).
 
   Definition parse_to_op : P node :=
     l <- parse_literal_basic ;;
